@@ -13,6 +13,7 @@ import (
 	"github.com/cloudwego/dynamicgo/conv/j2t"
 	"github.com/cloudwego/dynamicgo/conv/p2j"
 	"github.com/cloudwego/dynamicgo/conv/t2j"
+	dhttp "github.com/cloudwego/dynamicgo/http"
 	dproto "github.com/cloudwego/dynamicgo/proto"
 	dbin "github.com/cloudwego/dynamicgo/proto/binary"
 	pg "github.com/cloudwego/dynamicgo/proto/generic"
@@ -505,6 +506,48 @@ func runC06(c *h.Ctx) {
 			cs.Cover("mut_" + mu.class)
 		}
 		cs.Distinct(fmt.Sprintf("js-%s-%d", ts[0].name, len(doc)/16))
+	})
+
+	// ---- converters with http mapping / value mapping switched on (control returns to Go mid-struct)
+	c.Run("http-paths", c.N(1500, 60000), func(cs *h.Case) {
+		hs, err := thrift.NewDescritorFromContent(context.Background(), "h.thrift", c12HTTPIDL, nil, false)
+		if err != nil {
+			cs.Viol("robust:parse-idl", "err", err)
+			return
+		}
+		hreq, _ := RootOf(hs, "M")
+		fn, _ := hs.LookupFunctionByMethod("M")
+		hresp := fn.Response().Struct().FieldById(0).Type()
+		if cs.R.Bool() {
+			doc := []string{`{"Plain":123456789012,"Dflt":"d","Q":"x","H":5,"C":"c","RQ":9}`, `{"Plain":1}`, `{}`, `{"Q":null,"H":{"a":[1,2]},"Plain":-1,"zz":[{}]}`}[cs.R.Intn(4)]
+			o := conv.Options{EnableHttpMapping: true, ReadHttpValueFallback: cs.R.Bool(), TracebackRequredOrRootFields: cs.R.Bool(), WriteDefaultField: cs.R.Bool(), WriteRequireField: cs.R.Bool(), EnableValueMapping: cs.R.Bool(), DisallowUnknownField: cs.R.Bool()}
+			withQuery := cs.R.Bool()
+			for _, mu := range jsonMuts(cs.R, doc, 8) {
+				cs.Info("mutation", mu.class)
+				body := mu.b
+				c06Call(cs, c06Target{"j2t.Do+http-mapping", func(in []byte) {
+					ctx := context.WithValue(context.Background(), conv.CtxKeyHTTPRequest, c12HTTPReq(body, withQuery))
+					cv := j2t.NewBinaryConv(o)
+					cv.Do(ctx, hreq, in)
+				}}, mu.b)
+				cs.Cover("mut_" + mu.class)
+			}
+		} else {
+			v := tref.Struct(tref.Field{ID: 1, V: tref.Str("message")}, tref.Field{ID: 2, V: tref.Int32(201)}, tref.Field{ID: 3, V: tref.Str("hdr")}, tref.Field{ID: 4, V: tref.Str("cookie")})
+			b := tref.Encode(v)
+			o := conv.Options{EnableHttpMapping: true, WriteHttpValueFallback: cs.R.Bool(), OmitHttpMappingErrors: cs.R.Bool(), WriteDefaultField: cs.R.Bool(), UseKitexHttpEncoding: cs.R.Bool()}
+			muts := append(thriftMuts(cs.R, b, v, 5), genericMuts(cs.R, b, 4, "thrift")...)
+			for _, mu := range muts {
+				cs.Info("mutation", mu.class)
+				c06Call(cs, c06Target{"t2j.Do+http-response", func(in []byte) {
+					ctx := context.WithValue(context.Background(), conv.CtxKeyHTTPResponse, dhttp.NewHTTPResponse())
+					cv := t2j.NewBinaryConv(o)
+					cv.Do(ctx, hresp, in)
+				}}, mu.b)
+				cs.Cover("mut_" + mu.class)
+			}
+		}
+		cs.Distinct(fmt.Sprintf("http-%d", cs.I%400))
 	})
 
 	// ---- nesting beyond the depth limits
